@@ -244,7 +244,7 @@ def check_C13(res, scratch, tier, seed):
 
 
 # ------------------------------------------------------------------ C14 / C15 (API-history machine)
-def api_cfg(slots, maxhist, las, matches, dbgs, invariants, view=False, flags=(0, 1)):
+def api_cfg(slots, maxhist, las, matches, dbgs, invariants, view=False, flags=(0, 1), maxfaults=0):
     return """SPECIFICATION Spec
 CONSTANTS
   Slots = {%s}
@@ -253,10 +253,11 @@ CONSTANTS
   MatchVals = {%s}
   DbgVals = {%s}
   FlagVals = {%s}
+  MaxFaults = %d
 INVARIANTS %s
 %sCHECK_DEADLOCK FALSE
 """ % (",".join(map(str, slots)), maxhist, "<- LaWide" if min(las) < 0 else "= {%s}" % ",".join(map(str, las)), ",".join(map(str, matches)), ",".join(map(str, dbgs)),
-       ",".join(map(str, flags)), " ".join(invariants), "VIEW View\n" if view else "")
+       ",".join(map(str, flags)), maxfaults, " ".join(invariants), "VIEW View\n" if view else "")
 
 
 def run_api(res, scratch, tier, seed, prop, owners):
@@ -586,3 +587,78 @@ def check_C19(res, scratch, tier, seed):
                 elif r.get("e") == "Abort":
                     res.violation(abort_key(r), dict(r, build=os.path.basename(bdir), block=(r.get("block") or [])[:60]))
             res.cov["traces_validated_against_impl"] += len(blocks)
+
+
+# ------------------------------------------------------------------ C17 (allocation failure at every point)
+LEVELS["C17"] = "fault_enumeration"
+
+
+def check_C17(res, scratch, tier, seed):
+    builds = [build(scratch, "plain", ("yv_replay", "yv_api")), build(scratch, "asan", ("yv_replay", "yv_api"))]
+    res.cov["trusted_base"] = TB + ["link-time wrapping of malloc/calloc/realloc/free (harness/yv_common.h) counts and fails library requests"]
+    depth = 8 if tier == "quick" else 12
+    nbeh = 600 if tier == "quick" else 4000
+    t = run_tlc(scratch, "Api", api_cfg([1, 2], depth, [0, 1, 2], [1, 3], [0], ["EmitPools"], maxfaults=1), "api_fault",
+                simulate=max(1, nbeh // NCPU), depth=depth + 3, timeout=1500, extra=("-seed", str(seed)))
+    pools, behs = None, []
+    for v in tlc_vectors(t["out"]):
+        if "defs" in v:
+            pools = pools or v
+        elif "hist" in v and any(e.get("fault") for e in v["hist"]):
+            behs.append(v["hist"])
+    if pools is None or not behs:
+        raise Infra("no fault behaviours printed by TLC\n" + t["tail"][-2000:])
+    # distinct fault scenarios: (operation, definition/input/mode, what happened before on that slot)
+    seen, uniq = set(), []
+    for h in behs:
+        f = next(e for e in h if e.get("fault"))
+        key = json.dumps([f["op"], f.get("d"), f.get("w"), f.get("mode"), f.get("text"), f.get("strict"),
+                          [(e["op"], e.get("d"), e.get("w")) for e in h if e.get("s") == f["s"] and not e.get("fault")][-3:]])
+        if key not in seen:
+            seen.add(key)
+            uniq.append(h)
+    maxscen = 60 if tier == "quick" else 400
+    uniq = uniq[:maxscen]
+    pool_lines, inputs = api_pool_lines(pools, codemap="gap")
+    res.cov["rule"] = ("TLC simulates Api.tla with one allocation failure per behaviour (create, definition by callbacks or text, parse with caller's or default "
+                       "allocator; a second object alive in many of them); for every distinct fault scenario the replay first counts the library's memory requests N "
+                       "of the faulted call and then re-executes the behaviour once per chosen k <= N with the k-th request failing (quick: first/last 10 and every "
+                       "n-th; thorough: every k): the call must return NULL / YAEP_NO_MEMORY (error_code too), nothing may crash (plain + ASan), the object must be "
+                       "freeable, and all later calls on the OTHER object must still return exactly what the specification says; "
+                       "non-trivial = (scenario, k) pairs in which the failure was really injected")
+    total_inj = 0
+    for bdir in builds:
+        # pass 1: count requests
+        blocks = [[("G s%d" % i)] + pool_lines + api_behaviour_block("s%d" % i, h, inputs, fault_k=10 ** 8)[1:] for i, h in enumerate(uniq)]
+        recs, st = run_harness(os.path.join(bdir, "yv_api"), blocks)
+        allocs = {}
+        for r in recs:
+            if r.get("k") == "fault":
+                allocs[r["g"]] = r["allocs"]
+        blocks2 = []
+        for i, h in enumerate(uniq):
+            n = allocs.get("s%d" % i, 0)
+            if tier == "thorough":
+                ks = range(1, n + 1)
+            else:
+                ks = sorted(set(list(range(1, min(n, 10) + 1)) + list(range(max(1, n - 9), n + 1)) + list(range(1, n + 1, max(1, n // 25)))))
+            for k in ks:
+                bid = "s%d_k%d" % (i, k)
+                blocks2.append([("G " + bid)] + pool_lines + api_behaviour_block(bid, h, inputs, fault_k=k)[1:])
+        recs, st = run_harness(os.path.join(bdir, "yv_api"), blocks2)
+        for r in recs:
+            if r.get("k") == "summary":
+                res.cov["evaluations"] += r.get("ops", 0)
+            elif r.get("k") == "fault":
+                total_inj += r["injected"]
+            elif r.get("k") == "mismatch":
+                res.violation("C17|" + r["what"], dict(r, build=os.path.basename(bdir), behaviour=_beh_of(blocks2, r.get("g"))))
+            elif r.get("e") == "Abort":
+                blk = r.get("block")
+                beh = [l for l in (blk or []) if l[:2] in ("B ", "c ", "f ", "s ", "d ", "p ", "x", "K ")]
+                fop = next((beh[i + 1].split(" ")[0] for i, l in enumerate(beh) if l.startswith("K ") and i + 1 < len(beh)), "?")
+                res.violation("%s:fault-in-%s" % (abort_key(r), {"c": "create", "d": "define", "p": "parse"}.get(fop, fop)), dict(r, block=beh, build=os.path.basename(bdir)))
+        res.cov["traces_validated_against_impl"] += len(blocks2)
+    res.cov["distinct_nontrivial"] = total_inj
+    res.cov["samples"].append({"scenario": [l for l in api_behaviour_block("s0", uniq[0], inputs, fault_k=7) if not l.startswith("G ")]})
+    res.notes["scenarios"] = len(uniq)
